@@ -44,7 +44,7 @@ LIMIT = 200_000
 DL_KINDS = ["raise_before", "raise_half", "notfound_now", "crash_open", "crash_half", "crash_done"]
 RP_KINDS = ["crash_before_replace", "crash_after_replace"]
 PP_KINDS = ["pp_raise_before", "pp_raise_half", "pp_crash_half"]
-VAL_KINDS = ["invalid", "val_raise"]
+VAL_KINDS = ["invalid", "val_raise", "val_raise_eio"]
 SITE_KINDS = {"dl": DL_KINDS, "rp": RP_KINDS, "pp": PP_KINDS, "val": VAL_KINDS}
 
 
@@ -409,6 +409,9 @@ def scenarios(tier):
     for par in (False, True):
         out.append({"name": f"bac|pre=none|{'par' if par else 'seq'}|tolerant|limit2500", "request": reqs["bac"], "prefix": [],
                     "parallel": par, "allow_missing": True, "universe": sorted(set(reqs["bac"])), "limit": 2500})
+        # a request that exceeds the limit even when one of its URIs fails (the limit must still be enlarged)
+        out.append({"name": f"bac|pre=none|{'par' if par else 'seq'}|tolerant|limit1500", "request": reqs["bac"], "prefix": [],
+                    "parallel": par, "allow_missing": True, "universe": sorted(set(reqs["bac"])), "limit": 1500})
     small = [S + "s%d" % i for i in range(7)]
     big = [("six", small[:6]), ("seven_pp", small[:3] + ["postprocess=p:" + small[3] + "<<pp"] + small[4:7]),
            # the same URI twice in one request, in different chunks of the pool (positions 0 and 5)
